@@ -30,6 +30,22 @@ pub struct Native {
     pub name: String,
     pub arity: usize,
     pub beh: &'static str,
+    /// declared parameter types of a "typed" host function
+    pub types: Vec<&'static str>,
+}
+
+/// the typed / re-entering host functions the harness registers in every VM (C18)
+pub fn typed_registry() -> Vec<Native> {
+    let t = |name: &str, types: &[&'static str]| Native { name: name.into(), arity: types.len(), beh: "typed", types: types.to_vec() };
+    let c = |name: &str, arity: usize| Native { name: name.into(), arity, beh: "call", types: vec!["value"; arity] };
+    vec![
+        t("t_i", &["i64"]), t("t_f", &["f64"]), t("t_b", &["bool"]), t("t_s", &["str"]), t("t_v", &["value"]),
+        t("t_t", &["table"]), t("t_n", &["nilable_i64"]),
+        t("t_if", &["i64", "f64"]), t("t_sv", &["str", "value"]),
+        t("t_ifb", &["i64", "f64", "bool"]), t("t_vsi", &["value", "str", "i64"]),
+        t("t_ifbs", &["i64", "f64", "bool", "str"]), t("t_svti", &["str", "value", "table", "i64"]),
+        c("call0", 1), c("call1", 2), c("call2", 3),
+    ]
 }
 
 #[derive(Clone, Debug, Default)]
@@ -152,7 +168,7 @@ impl P {
             "fns": self.fns.iter().zip(lay.iter()).map(|(f, (ns, fi))| json!({
                 "name": f.name, "params": f.params, "body": f.body.iter().map(|c| c.to_json()).collect::<Vec<_>>(),
                 "fi": fi, "ns": ns})).collect::<Vec<_>>(),
-            "natives": self.natives.iter().map(|n| json!({"name": n.name, "arity": n.arity, "beh": n.beh})).collect::<Vec<_>>(),
+            "natives": self.natives.iter().map(|n| json!({"name": n.name, "arity": n.arity, "beh": n.beh, "types": n.types})).collect::<Vec<_>>(),
         })
     }
     pub fn from_json(j: &J) -> P {
@@ -165,7 +181,8 @@ impl P {
             natives: j["natives"].as_array().map(|a| a.iter().map(|n| Native {
                 name: n["name"].as_str().unwrap().to_string(),
                 arity: n["arity"].as_u64().unwrap() as usize,
-                beh: match n["beh"].as_str().unwrap() { "log" => "log", "id" => "id", "fail" => "fail", other => panic!("beh {other}") },
+                beh: match n["beh"].as_str().unwrap() { "log" => "log", "id" => "id", "fail" => "fail", "typed" => "typed", "call" => "call", other => panic!("beh {other}") },
+                types: vec![],
             }).collect()).unwrap_or_default(),
             imports: j["imports"].as_array().map(|a| a.iter().map(|e| (e[0].as_str().unwrap().to_string(),
                 e[1].as_array().unwrap().iter().map(|x| x.as_str().unwrap().to_string()).collect())).collect()).unwrap_or_default(),
@@ -398,6 +415,90 @@ macro_rules! host_fns {
     }};
 }
 
+// ---- typed host functions: real fn pointers going through the crate's VmFunction1..4 adapters
+fn lg(vm: &mut Vm<Host>, name: &str, args: Vec<J>) {
+    vm.get_aux_mut().log.borrow_mut().push(json!({"name": name, "args": args}));
+}
+fn jint(i: i64) -> J {
+    json!({"t":"int","i":i,"e":0,"s":""})
+}
+fn jstr(s: &str) -> J {
+    json!({"t":"str","i":s.len(),"e":0,"s":s})
+}
+fn jtab(t: &CaoLangTable) -> J {
+    J::Object(json!({"t":"tab","e": t.iter().map(|(k, v)| json!([deep(*k, 1), deep(*v, 1)])).collect::<Vec<_>>()}).as_object().unwrap().clone())
+}
+type R = Result<Value, ExecutionErrorPayload>;
+fn t_i(vm: &mut Vm<Host>, a: i64) -> R { lg(vm, "t_i", vec![jint(a)]); Ok(Value::Integer(a)) }
+fn t_f(vm: &mut Vm<Host>, a: f64) -> R { lg(vm, "t_f", vec![real_to_json(a)]); Ok(Value::Real(a)) }
+fn t_b(vm: &mut Vm<Host>, a: bool) -> R { lg(vm, "t_b", vec![jint(a as i64)]); Ok(Value::Integer(a as i64)) }
+fn t_s(vm: &mut Vm<Host>, a: &str) -> R { lg(vm, "t_s", vec![jstr(a)]); Ok(Value::Integer(a.len() as i64)) }
+fn t_v(vm: &mut Vm<Host>, a: Value) -> R { lg(vm, "t_v", vec![deep(a, 0)]); Ok(a) }
+fn t_t(vm: &mut Vm<Host>, a: &CaoLangTable) -> R { lg(vm, "t_t", vec![jtab(a)]); Ok(Value::Integer(a.len() as i64)) }
+fn t_n(vm: &mut Vm<Host>, a: Nilable<i64>) -> R {
+    lg(vm, "t_n", vec![a.0.map(jint).unwrap_or_else(nilv)]);
+    Ok(Value::Integer(a.0.unwrap_or(-1)))
+}
+fn t_if(vm: &mut Vm<Host>, a: i64, b: f64) -> R { lg(vm, "t_if", vec![jint(a), real_to_json(b)]); Ok(Value::Integer(a)) }
+fn t_sv(vm: &mut Vm<Host>, a: &str, b: Value) -> R { lg(vm, "t_sv", vec![jstr(a), deep(b, 0)]); Ok(Value::Integer(a.len() as i64)) }
+fn t_ifb(vm: &mut Vm<Host>, a: i64, b: f64, c: bool) -> R { lg(vm, "t_ifb", vec![jint(a), real_to_json(b), jint(c as i64)]); Ok(Value::Integer(a)) }
+fn t_vsi(vm: &mut Vm<Host>, a: Value, b: &str, c: i64) -> R { lg(vm, "t_vsi", vec![deep(a, 0), jstr(b), jint(c)]); Ok(a) }
+fn t_ifbs(vm: &mut Vm<Host>, a: i64, b: f64, c: bool, d: &str) -> R {
+    lg(vm, "t_ifbs", vec![jint(a), real_to_json(b), jint(c as i64), jstr(d)]);
+    Ok(Value::Integer(a))
+}
+fn t_svti(vm: &mut Vm<Host>, a: &str, b: Value, c: &CaoLangTable, d: i64) -> R {
+    lg(vm, "t_svti", vec![jstr(a), deep(b, 0), jtab(c), jint(d)]);
+    Ok(Value::Integer(a.len() as i64))
+}
+/// re-entry: push the arguments, run the function value, report the balance of both stacks
+fn reenter(vm: &mut Vm<Host>, name: &str, f: Value, args: &[Value]) -> R {
+    let r0 = vm.runtime_data.verif_residue();
+    let (sh, ch) = (r0.value_stack_len as i64, r0.call_stack_len as i64);
+    for a in args {
+        vm.stack_push(*a)?;
+    }
+    let r = vm.run_function(f)?;
+    let r1 = vm.runtime_data.verif_residue();
+    let (sh2, ch2) = (r1.value_stack_len as i64, r1.call_stack_len as i64);
+    lg(vm, name, vec![deep(r, 0), jint(sh2 - sh), jint(ch2 - ch)]);
+    Ok(r)
+}
+fn call0(vm: &mut Vm<Host>, f: Value) -> R { reenter(vm, "call0", f, &[]) }
+fn call1(vm: &mut Vm<Host>, f: Value, a: Value) -> R { reenter(vm, "call1", f, &[a]) }
+fn call2(vm: &mut Vm<Host>, f: Value, a: Value, b: Value) -> R { reenter(vm, "call2", f, &[a, b]) }
+
+pub fn register_typed(vm: &mut Vm<Host>) {
+    vm.register_native_function("t_i", into_f1(t_i)).unwrap();
+    vm.register_native_function("t_f", into_f1(t_f)).unwrap();
+    vm.register_native_function("t_b", into_f1(t_b)).unwrap();
+    vm.register_native_function("t_s", into_f1(t_s)).unwrap();
+    vm.register_native_function("t_v", into_f1(t_v)).unwrap();
+    vm.register_native_function("t_t", into_f1(t_t)).unwrap();
+    vm.register_native_function("t_n", into_f1(t_n)).unwrap();
+    vm.register_native_function("t_if", into_f2(t_if)).unwrap();
+    vm.register_native_function("t_sv", into_f2(t_sv)).unwrap();
+    vm.register_native_function("t_ifb", into_f3(t_ifb)).unwrap();
+    vm.register_native_function("t_vsi", into_f3(t_vsi)).unwrap();
+    vm.register_native_function("t_ifbs", into_f4(t_ifbs)).unwrap();
+    vm.register_native_function("t_svti", into_f4(t_svti)).unwrap();
+    vm.register_native_function("call0", into_f1(call0)).unwrap();
+    vm.register_native_function("call1", into_f2(call1)).unwrap();
+    vm.register_native_function("call2", into_f3(call2)).unwrap();
+}
+
+/// {name, inner, param} of a TaskFailure (outermost task, innermost rejected parameter)
+pub fn task_json(p: &ExecutionErrorPayload) -> J {
+    if let ExecutionErrorPayload::TaskFailure { name, error } = p {
+        let inner = payload_kind(error);
+        let msg = format!("{}", error);
+        let param = msg.split("input #").nth(1).and_then(|x| x.split(':').next()).and_then(|x| x.trim().parse::<i64>().ok()).unwrap_or(0);
+        json!({"name": name, "inner": inner, "param": param})
+    } else {
+        json!({"name": "", "inner": "", "param": 0})
+    }
+}
+
 pub fn payload_kind(p: &ExecutionErrorPayload) -> String {
     let d = format!("{:?}", p);
     d.split(|c: char| !c.is_alphanumeric()).next().unwrap_or("").to_string()
@@ -434,7 +535,7 @@ pub fn observe(p: &P, cfg: &RunCfg) -> J {
             let kind = format!("{:?}", e.payload);
             let kind = kind.split(|c: char| !c.is_alphanumeric()).next().unwrap_or("").to_string();
             let loc = e.loc.as_ref().map(|l| trace_json(std::slice::from_ref(l))).unwrap_or(json!([]));
-            return json!({"st": "cerr", "kind": kind, "globals": {}, "log": [], "trace": loc});
+            return json!({"st": "cerr", "kind": kind, "globals": {}, "log": [], "trace": loc, "task": {"name":"","inner":"","param":0}});
         }
     };
     observe_compiled(p, &compiled, cfg)
@@ -443,8 +544,12 @@ pub fn observe(p: &P, cfg: &RunCfg) -> J {
 pub fn make_vm(p: &P, cfg: &RunCfg) -> Vm<'static, Host> {
     let mut vm = Vm::new(Host::default()).unwrap().with_max_iter(cfg.max_instr);
     for n in &p.natives {
+        if n.beh == "typed" || n.beh == "call" {
+            continue;
+        }
         host_fns!(n.name.as_str(), vm, n.beh, n.arity).unwrap();
     }
+    register_typed(&mut vm);
     vm
 }
 
@@ -465,7 +570,8 @@ pub fn observation(vm: &Vm<Host>, compiled: &CaoCompiledProgram, res: &Result<()
     }
     let log = J::Array(vm.get_aux().log.borrow().clone());
     match res {
-        Ok(()) => json!({"st":"ok","kind":"","globals":globals,"log":log,"trace":[]}),
-        Err(e) => json!({"st":"err","kind":payload_kind(&e.payload),"globals":globals,"log":log,"trace":trace_json(&e.trace)}),
+        Ok(()) => json!({"st":"ok","kind":"","globals":globals,"log":log,"trace":[],"task":{"name":"","inner":"","param":0}}),
+        Err(e) => json!({"st":"err","kind":payload_kind(&e.payload),"globals":globals,"log":log,"trace":trace_json(&e.trace),
+                         "task": task_json(&e.payload)}),
     }
 }
